@@ -135,7 +135,7 @@ theorem C20_minmax_local (b : Bitmap) (h : BitmapWF b)
         | none => exact absurd (List.getLast?_eq_none_iff.1 hl) hne
         | some v => rfl
 
-theorem C20_minmax_partial (b : Bitmap) (hwf : Bitmap.WF b)
+theorem C20_minmax_of_kernel (b : Bitmap) (hwf : Bitmap.WF b)
     (hK : ∀ c ∈ b, ∀ bs, c.store = .bitmap bs → BStoreMinMax bs) :
     (Bitmap.statistics b).minValue = (Spec.stats (Bitmap.elems b)).minValue ∧
     (Bitmap.statistics b).maxValue = (Spec.stats (Bitmap.elems b)).maxValue :=
@@ -146,7 +146,7 @@ theorem C20_minmax_partial (b : Bitmap) (hwf : Bitmap.WF b)
 theorem C20_minmax (b : Bitmap) (hwf : Bitmap.WF b) :
     (Bitmap.statistics b).minValue = (Spec.stats (Bitmap.elems b)).minValue ∧
     (Bitmap.statistics b).maxValue = (Spec.stats (Bitmap.elems b)).maxValue := by
-  refine C20_minmax_partial b hwf ?_
+  refine C20_minmax_of_kernel b hwf ?_
   intro c hc bs hs
   have hst := (hwf.2 c hc).2
   rw [hs] at hst
